@@ -36,6 +36,19 @@ CaseResult body(Chooser& ch, Stats* st) {
   uint32_t nk = conv ? 2 + (uint32_t)ch.draw(0, 6) : 1, dim = conv ? (uint32_t)ch.draw(0, s.ndim() - 1) : 0;
   // keep the convolved table within reach: (k+q-1)! in the library's factorial must not overflow
   if (conv && s.dims[dim].order + nk - 1 > 11) nk = 12 - s.dims[dim].order;
+  // a long knot vector in the convolved dimension (hundreds of knots): its size is then comparable with the slack of
+  // the estimate, so the order in which convolve() allocates and releases the knot vectors becomes visible
+  if (conv && gen_version() >= 2 && ch.coin(1, 3)) {
+    size_t others = 1; for (size_t d = 0; d < s.ndim(); d++) if (d != dim) others *= s.dims[d].nfun();
+    size_t want = 100 + (size_t)ch.draw(0, 1100);
+    while (want > 40 && others * want > 12000) want = want * 2 / 3;
+    auto& k = s.dims[dim].knots;
+    double step = k.back() - k[k.size() - 2]; if (!(step > 0)) step = 1.0;
+    while (k.size() < want) k.push_back(k.back() + step);
+    s.dims[dim].ext_lo = k[s.dims[dim].order]; s.dims[dim].ext_hi = k[k.size() - s.dims[dim].order - 1];
+    gen_coeffs(ch, s);
+    if (st) st->label("convolved_dimension:long_knot_vector");
+  }
   std::ostringstream js;
   js << "{\"spec\":" << s.json(4) << ",\"naux\":" << naux << ",\"convolution_knots\":" << nk << ",\"convolution_dimension\":" << dim << "}";
   r.json = js.str();
